@@ -56,6 +56,11 @@ CLAIMED["C19"] = ("connect", "5/C19, 4.10",
     "TLC checks a mechanism model of ResolverService/TcpConnectorFut/TLS connectors against the declarative property C19_Holds for every input vector (address lists 0..4/0..5 x live/refused/unreachable/IPv6, host kinds, ports, pre-set constructors, resolver outcomes, local bind; 2 TLS libraries x 13 names x issuer), 9 wrong-design NEG configs rejected; every vector is executed on the real services against loopback listeners, closed ports, logging resolvers and in-process TLS servers, and every recorded call is judged by TLC with the same predicate. TLS payload integrity is differential.",
     "Trusts TLC, the loopback network stack, rcgen/rustls/openssl for certificate validation; the default resolver is exercised for localhost only; payload echo is differential.")
 
+CLAIMED["C18"] = ("tls", "5/C18, 4.10",
+    "TLA+ spec TlsAccept.tla model-checked exhaustively by TLC (+5 NEG variants that must be rejected); every edge of the state graph replayed on the real rustls 0.23 and OpenSSL acceptor services over a gated in-memory duplex under Tokio's paused clock with scripted real TLS clients; all recorded runs plus seeded random walks validated by TLC against TlsAcceptTrace.tla (strict); payload equality checked differentially by the driver",
+    "All interleavings of poll_ready (2 wakers), call with handshake script complete@t / fail@t / stall, poll / drop of call futures and clock ticks are enumerated by TLC for limits 1..3, up to 4-5 concurrent calls and timeouts of 2-3 ticks; an init-rooted path cover of every edge of the replayed graphs (3-4 concurrent calls) is executed on both acceptor services with handshake timeouts 0.1 / 1.5 / 5 s in virtual time, and the observed readiness answers, resolution variant and instant (1 ms granularity), wake-ups and number of unresolved calls are compared with the edge labels and validated by TLC; random walks with up to 5 concurrent calls are judged by TLC alone. The data-intact clause (payloads 0 B..64 KiB both ways) is a differential byte comparison by the driver recorded as echo observations, not a model-based claim.",
+    "Trusts TLC, the path-cover script, Tokio's paused clock/timer wheel, counting wakers, rustls/aws-lc-rs and OpenSSL; handshakes in progress are measured as live call futures; bounded constants.")
+
 NOT_YET = "check not built yet in this round; the specification for it is planned in DESIGN.md section 5"
 
 
